@@ -306,10 +306,21 @@ impl Family for TokenMutations {
         out.steps = 0;
         out.nontrivial = true;
         let mut classes = std::collections::BTreeSet::new();
+        let last_base = b + 1 == self.bases.len();
+        let mut k = 0u64;
         let mut one = |toks: Vec<String>, out: &mut CaseOut| {
             let text = join_toks(&toks);
-            let c = verdict_both(&[&text, &self.lib], out, "token-mutations", &|| text.clone());
-            classes.insert(c);
+            // the mutated file first or last in the compilation (what a failed parse leaves behind depends on what comes
+            // after it): alternating; the lint-rich base in both orders
+            k += 1;
+            if last_base || k % 2 == 0 {
+                let c = verdict_both(&[&text, &self.lib], out, "token-mutations", &|| text.clone());
+                classes.insert(c);
+            }
+            if last_base || k % 2 == 1 {
+                let c = verdict_both(&[&self.lib, &text], out, "token-mutations", &|| format!("(second file of the compilation, after the library file)\n{text}"));
+                classes.insert(c);
+            }
         };
         if pos < base.len() {
             let mut t = base.clone();
